@@ -1,8 +1,13 @@
 #!/bin/sh
-# tools/try_seed.sh <patch.diff> <Cxx> [tier]  -- apply a seeded change to /repo, run the check, undo it
+# tools/try_seed.sh <patch.diff> <Cxx> [tier]
+# Apply a seeded change in a SCRATCH worktree of /repo (so /repo itself and checks running on it are not
+# disturbed), run the check against that tree (VERIF_REPO), remove the worktree.
 P="$1"; ID="$2"; TIER="${3:-quick}"
-cd /repo || exit 2
-git diff --quiet || { echo "/repo not clean"; exit 2; }
-git apply "$P" || { echo "patch does not apply"; exit 2; }
-cd /verif && ./check "$ID" --tier "$TIER" 2>&1 | grep -E "^OK|^VIOLATION|^KNOWN|^MACHINERY|signature|what:" | head -8
-cd /repo && git checkout -- . && git status --short | head -3
+WT=/tmp/trywt_$$_$ID
+git -C /repo worktree add -q --detach "$WT" HEAD || exit 2
+if (cd "$WT" && git apply "$P") || (cd "$WT" && patch -p1 -s -F5 < "$P"); then
+  cd /verif && VERIF_NO_EVIDENCE=1 VERIF_REPO="$WT" ./check "$ID" --tier "$TIER" 2>&1 | grep -E "^OK|^VIOLATION|^KNOWN|^MACHINERY|signature|what:" | grep -v "^KNOWN" | head -8
+else
+  echo "patch does not apply"
+fi
+git -C /repo worktree remove --force "$WT"
